@@ -153,6 +153,20 @@ fn query_soa(r: &dyn ReadableZone) -> Vec<u32> {
     }
 }
 
+/// The serial of the SOA a negative answer carries in its authority section (a type no name has is asked for), seen the
+/// way a client sees it: through Answer::to_message and the reference reader. None: no SOA there.
+fn negative_answer_soa(r: &dyn ReadableZone, i: usize) -> Option<u32> {
+    let qn = name_of(i);
+    let a = r.query(qname_of(&qn), Rtype::MX).ok()?;
+    let o = observe(&a, &qn, 15).ok()?;
+    if !o.answer.is_empty() {
+        return None;
+    }
+    let soa = o.authority.iter().find(|x| x.1 == T_SOA)?;
+    let rd = &soa.3;
+    Some(u32::from_be_bytes(rd[rd.len() - 20..rd.len() - 16].try_into().ok()?))
+}
+
 #[derive(Debug, Clone)]
 enum Op {
     Acquire(usize),
@@ -239,6 +253,17 @@ fn history(c: &mut Ctx, rt: &tokio::runtime::Runtime, fam: &str, idx: u64) {
                         if got != want {
                             let kind = if got.iter().any(|s| *s >= ABANDON_BASE) { "abandoned-data-visible" } else if writer.is_some() { "sees-open-writer-or-other-version" } else { "sees-other-version" };
                             return Err((format!("snapshot:{}", kind), format!("reader pinned at version {} sees stamps {:?} for name {}, its version has {:?}", pinned, got, n, want)));
+                        }
+                        // what a negative answer says in its authority section is part of what the reader sees
+                        if n < NAMES.len() {
+                            if let Some(want_soa) = committed[*pinned].get(&SOA_KEY) {
+                                if let Some(got_soa) = negative_answer_soa(r.as_ref(), n) {
+                                    c.count("negative_answers_with_soa_checked", 1);
+                                    if got_soa != *want_soa {
+                                        return Err(("snapshot:negative-answer-soa-of-other-version".into(), format!("reader pinned at version {} (SOA serial {}) gets a negative answer for name {} whose authority section carries SOA serial {}", pinned, want_soa, n, got_soa)));
+                                    }
+                                }
+                            }
                         }
                     }
                 }
@@ -682,6 +707,146 @@ fn stress(c: &mut Ctx, round: u64, readers: u32, writers: u32, rounds: u32, work
     }
 }
 
+/// One writer whose node interface is used from several threads at once (a zone loaded in parallel): every thread creates
+/// the same, not yet existing, child names at the same moment and puts an RRset of a type of its own there. After the
+/// commit every RRset that was written is there - for queries and for walk().
+fn parallel_writer(c: &mut Ctx, round: u64, miri: bool) {
+    let nthreads = 3usize;
+    let labels: usize = if miri { 6 } else { 400 };
+    let zone = {
+        let mut b = ZoneBuilder::new(sname(APEX), Class::IN);
+        b.insert_rrset(&sname(APEX), anchor_rrset()).unwrap();
+        b.build()
+    };
+    let rt = tokio::runtime::Builder::new_current_thread().enable_all().build().expect("tokio runtime");
+    let mut wz = rt.block_on(zone.write());
+    let root: Arc<Box<dyn WritableZoneNode>> = match rt.block_on(wz.open(false)) {
+        Ok(n) => Arc::new(n),
+        Err(_) => return,
+    };
+    let types = [Rtype::TXT, Rtype::A, Rtype::AAAA];
+    // a meeting point per name, with a time limit: a thread that is late (or gone) does not hold up the others for good
+    let arrived = Arc::new(AtomicU64::new(0));
+    let progress: Arc<Vec<AtomicU64>> = Arc::new((0..nthreads).map(|_| AtomicU64::new(0)).collect());
+    let failed = Arc::new(AtomicU64::new(0));
+    let hs: Vec<_> = (0..nthreads)
+        .map(|t| {
+            let root = root.clone();
+            let arrived = arrived.clone();
+            let progress = progress.clone();
+            let failed = failed.clone();
+            std::thread::spawn(move || {
+                let rt = tokio::runtime::Builder::new_current_thread().build().expect("tokio runtime");
+                for k in 0..labels {
+                    let l = format!("p{}r{}", k, round);
+                    let label = Label::from_slice(l.as_bytes()).unwrap();
+                    let mut rs = Rrset::new(types[t], domain::base::Ttl::from_secs(60));
+                    let rd: Vec<u8> = match t {
+                        0 => txt_rdata(k as u32 + 1),
+                        1 => vec![192, 0, 2, (k % 250) as u8],
+                        _ => { let mut v = vec![0x20, 0x01, 0x0d, 0xb8]; v.extend_from_slice(&[0; 11]); v.push((k % 250) as u8); v }
+                    };
+                    rs.push_data(sdata(types[t].to_int(), &rd));
+                    // all threads go for the same new name at the same moment
+                    arrived.fetch_add(1, Ordering::SeqCst);
+                    let t0 = std::time::Instant::now();
+                    while arrived.load(Ordering::SeqCst) < ((k + 1) * nthreads) as u64 && t0.elapsed().as_millis() < 2000 {
+                        std::hint::spin_loop();
+                        if t0.elapsed().as_micros() > 300 {
+                            // (a partner that is late is waited for without burning the CPU time the stall monitor goes by)
+                            std::thread::sleep(std::time::Duration::from_micros(100));
+                        }
+                    }
+                    progress[t].fetch_add(1, Ordering::Relaxed);
+                    let r = rt.block_on(async {
+                        let ch = root.update_child(label).await?;
+                        ch.update_rrset(rs.into_shared()).await
+                    });
+                    if r.is_err() {
+                        failed.fetch_add(1, Ordering::Relaxed);
+                    }
+                }
+            })
+        })
+        .collect();
+    // (threads blocked on each other burn nothing: no progress for 20 s while the process uses no CPU time is a deadlock)
+    // (judged per thread: one that is not caught in the deadlock goes on alone, slowly, and must not hide the others)
+    let snapshot = |pr: &Vec<AtomicU64>, hs: &Vec<std::thread::JoinHandle<()>>| -> Vec<(u64, bool)> { pr.iter().zip(hs.iter()).map(|(p, h)| (p.load(Ordering::Relaxed), h.is_finished())).collect() };
+    let mut last = snapshot(&progress, &hs);
+    let mut since = std::time::Instant::now();
+    let mut cpu_at = ctx::process_cpu_s();
+    while hs.iter().any(|h| !h.is_finished()) {
+        std::thread::sleep(std::time::Duration::from_millis(50));
+        ctx::beat();
+        let now = snapshot(&progress, &hs);
+        // every thread that is still at work has moved on since the window began: start a new window
+        if now.iter().zip(last.iter()).all(|(n, l)| n.1 || n.0 != l.0) {
+            last = now;
+            since = std::time::Instant::now();
+            cpu_at = ctx::process_cpu_s();
+        } else if !miri && since.elapsed().as_secs_f64() > 20.0 {
+            let p: u64 = now.iter().map(|x| x.0).sum();
+            if ctx::process_cpu_s() - cpu_at < 4.0 {
+                let rp = c.replay_of("parallel-writer", round, json!({"threads": nthreads, "names": labels}));
+                c.violation("deadlock:parallel-writer", &format!("{} threads using one writer's node interface: no update for 20 s while the process used no CPU time; {} of {} updates had been made", nthreads, p, nthreads * labels), rp);
+                c.count("stress_deadlocked", 1);
+                std::mem::forget(hs);
+                std::mem::forget(root);
+                std::mem::forget(wz);
+                return;
+            }
+            last = now;
+            since = std::time::Instant::now();
+            cpu_at = ctx::process_cpu_s();
+        }
+    }
+    for h in hs {
+        let _ = h.join();
+    }
+    drop(root);
+    if rt.block_on(wz.commit(false)).is_err() {
+        failed.fetch_add(1, Ordering::Relaxed);
+    }
+    drop(wz);
+    let rp = c.replay_of("parallel-writer", round, json!({"threads": nthreads, "names": labels}));
+    if let Some(pi) = ctx::take_any_panic() {
+        c.violation(&format!("panic:{}", pi.site()), &format!("panic in a thread sharing one writer: {} at {}:{}", pi.msg, pi.file, pi.line), rp);
+        return;
+    }
+    if failed.load(Ordering::Relaxed) > 0 {
+        c.violation("parallel-writer:update-failed", "update_child / update_rrset / commit failed for a writer used from several threads", rp);
+        return;
+    }
+    let r = zone.read();
+    let mut missing = Vec::new();
+    for k in 0..labels {
+        let l = format!("p{}r{}", k, round);
+        let mut qn = vec![l.len() as u8];
+        qn.extend_from_slice(l.as_bytes());
+        qn.extend_from_slice(APEX);
+        for ty in types {
+            let there = matches!(r.query(qname_of(&qn), ty).map(|a| matches!(a.content(), AnswerContent::Data(_))), Ok(true));
+            if !there {
+                missing.push(format!("{} {}", l, ty));
+            }
+        }
+    }
+    let walked = Arc::new(AtomicU64::new(0));
+    let w2 = walked.clone();
+    r.walk(Box::new(move |_o: StoredName, rr: &SharedRrset, _cut: bool| {
+        if rr.rtype() == Rtype::TXT || rr.rtype() == Rtype::A || rr.rtype() == Rtype::AAAA {
+            w2.fetch_add(1, Ordering::Relaxed);
+        }
+    }));
+    c.evals_n((labels * nthreads) as u64);
+    c.count("parallel_writer_rrsets_written", (labels * nthreads) as u64);
+    if !missing.is_empty() {
+        c.violation("parallel-writer:committed-rrset-missing", &format!("{} of the {} RRsets that {} threads wrote through one writer (each thread a type of its own, all threads creating the same new names at the same moment) are not there after the commit, e.g. {:?}", missing.len(), labels * nthreads, nthreads, &missing[..missing.len().min(4)]), rp);
+    } else if walked.load(Ordering::Relaxed) != (labels * nthreads) as u64 + 1 {
+        c.violation("parallel-writer:walk-differs", &format!("walk() enumerates {} address/text RRsets, {} were committed", walked.load(Ordering::Relaxed), labels * nthreads + 1), rp);
+    }
+}
+
 pub fn run(c: &mut Ctx) {
     let miri = c.mode == "miri";
     let tsan = c.mode == "tsan";
@@ -708,6 +873,7 @@ pub fn run(c: &mut Ctx) {
         if c.replaying() || c.out_of_time() || c.get_count("stress_deadlocked") > 0 {
             break;
         }
+        parallel_writer(c, round * 1000 + c.shard, miri);
         stress(c, round * 1000 + c.shard, readers, writers, rounds, workers, miri);
     }
     if !c.replaying() && !miri && !tsan {
@@ -716,6 +882,7 @@ pub fn run(c: &mut Ctx) {
         c.floor("commits", 100);
         c.floor("writers_reopened_after_commit", 100);
         c.floor("writers_lost_to_a_panic", 50);
+        c.floor("negative_answers_with_soa_checked", 100);
         c.floor("writers_that_asked_while_another_was_at_work", 50);
         c.floor("stress_overlap_windows", 10);
         c.floor("stress_abandons", 10);
